@@ -71,6 +71,11 @@ CSRMatrix* read_mm(const char *fname)
         if (fscanf(f, "%d %d %lg\n", &row, &col, &val) != 3)
             return NULL;
         A->add_value(row - 1, col - 1, val);
+        // a symmetric file stores one triangle only
+        if (mm_is_symmetric(matcode) && row != col)
+        {
+            A->add_value(col - 1, row - 1, val);
+        }
     }
     fclose(f);
 
